@@ -180,6 +180,8 @@ theorem exec_wf {S S' : Store} {c : Call} (h : WF S) (hex : exec S c = .ok S') :
     split at hex
     · cases hex
     · rename_i hnot
+      split at hex
+      · cases hex
       rw [← ok_inj hex]
       have hfresh : id ∉ gids S.groups := fun hm => hnot (hasGroup_iff.mpr hm)
       refine ⟨h.pol, ?_, h.svc, wf_rules_of h rfl fun p _ r _ hr => ?_⟩
@@ -211,25 +213,29 @@ theorem exec_wf {S S' : Store} {c : Call} (h : WF S) (hex : exec S c = .ok S') :
               · intro _ hh; exact hh⟩
         · split at hex
           · cases hex
-          · rw [← ok_inj hex]
-            have hg := gids_setGroupAddrs S.groups gid
-              (fun g => { g with addrs := g.addrs.filter (!addrs.contains ·) }) fun _ => rfl
-            exact ⟨h.pol, by show (gids _).Nodup; rw [hg]; exact h.grp, h.svc, wf_rules_of h rfl fun p _ r _ hr => by
-              refine refsOk_congr (S := S) ?_ ?_ hr
-              · intro x hx; rw [hasGroup_iff] at hx ⊢; show x ∈ gids _; rw [hg]; exact hx
-              · intro _ hh; exact hh⟩
+          · split at hex
+            · cases hex
+            · rw [← ok_inj hex]
+              have hg := gids_setGroupAddrs S.groups gid
+                (fun g => { g with addrs := g.addrs.filter (!addrs.contains ·) }) fun _ => rfl
+              exact ⟨h.pol, by show (gids _).Nodup; rw [hg]; exact h.grp, h.svc, wf_rules_of h rfl fun p _ r _ hr => by
+                refine refsOk_congr (S := S) ?_ ?_ hr
+                · intro x hx; rw [hasGroup_iff] at hx ⊢; show x ∈ gids _; rw [hg]; exact hx
+                · intro _ hh; exact hh⟩
   | patchExpr gid e t addrs =>
     simp only [exec] at hex
     split at hex
     · cases hex
     · split at hex
       · cases hex
-      · rw [← ok_inj hex]
-        have hg := gids_setGroupAddrs S.groups gid (fun g => { g with rtype := t, addrs := addrs }) fun _ => rfl
-        exact ⟨h.pol, by show (gids _).Nodup; rw [hg]; exact h.grp, h.svc, wf_rules_of h rfl fun p _ r _ hr => by
-          refine refsOk_congr (S := S) ?_ ?_ hr
-          · intro x hx; rw [hasGroup_iff] at hx ⊢; show x ∈ gids _; rw [hg]; exact hx
-          · intro _ hh; exact hh⟩
+      · split at hex
+        · cases hex
+        · rw [← ok_inj hex]
+          have hg := gids_setGroupAddrs S.groups gid (fun g => { g with rtype := t, addrs := addrs }) fun _ => rfl
+          exact ⟨h.pol, by show (gids _).Nodup; rw [hg]; exact h.grp, h.svc, wf_rules_of h rfl fun p _ r _ hr => by
+            refine refsOk_congr (S := S) ?_ ?_ hr
+            · intro x hx; rw [hasGroup_iff] at hx ⊢; show x ∈ gids _; rw [hg]; exact hx
+            · intro _ hh; exact hh⟩
   | deleteGroup id =>
     simp only [exec] at hex
     split at hex
